@@ -122,4 +122,18 @@ def LogOrigin (c : Cfg) : Ev → Prop
   | .hret hid => c.code.head? = some (.hret hid)
   | _ => True
 
+/-! ### the history of one signal -/
+
+/-- the handler invocations `(callback, data)` made for signal `s`, oldest first -/
+def callsOf (s : Sig) : List Tr → List (HRef × Option Nat)
+  | [] => []
+  | .call h d s' :: tr => if s' = s then callsOf s tr ++ [(h, d)] else callsOf s tr
+  | _ :: tr => callsOf s tr
+
+/-- how often signal `s` was taken from a queue for dispatch -/
+def takeCount (s : Sig) : List Tr → Nat
+  | [] => 0
+  | .take _ s' :: tr => if s' = s then takeCount s tr + 1 else takeCount s tr
+  | _ :: tr => takeCount s tr
+
 end Simpleline.Dispatch
